@@ -14,6 +14,15 @@ UNITS = {
   'scan_simple': dict(wrapper='w_scan.cpp', mode='seq', cxxflags=['-DVP_PART=simple_partitioner']),
   'scan_auto': dict(wrapper='w_scan.cpp', mode='seq', cxxflags=['-DVP_PART=auto_partitioner']),
 }
+# one public overload of parallel_deterministic_reduce (1..12) / parallel_reduce (13..32) per unit, see w_overloads.cpp
+def ovl_name(k):
+  if k <= 12:
+    form, var = (k - 1) // 6, (k - 1) % 6
+    return 'overloads_det%02d_%s_%s%s' % (k, ('body', 'lambda')[form], ('default', 'simple', 'static')[var % 3], '_ctx' if var >= 3 else '')
+  form, var = (k - 13) // 10, (k - 13) % 10
+  return 'overloads_red%02d_%s_%s%s' % (k, ('body', 'lambda')[form], ('default', 'simple', 'auto', 'static', 'affinity')[var % 5], '_ctx' if var >= 5 else '')
+for _k in range(1, 33):
+  UNITS['ovl%02d' % _k] = dict(wrapper='w_overloads.cpp', mode='seq', cxxflags=['-DVP_OVL=%d' % _k])
 
 # ---------------------------------------------------------------- task orders for the task-bag harnesses (h_reduce.c)
 # bag harnesses: arrays up to 256 elements stay field-sensitive (range_vector's 128-byte pool and the untyped 128/192-byte scan
@@ -129,6 +138,20 @@ HARNESSES = (
       quick=sched(4, 1, 1, 1, nestmasks=(0, 1), drains=(0, 1), extra={'MAXCONC': 1}),
       thorough=sched(4, 1, 2, 2, nestmasks=(0, 1, 3, 5, 15), drains=(0, 5), extra={'MAXCONC': 1}, stolen=(0, 255, 0x55)) + sched(6, 1, 1, 1, nestmasks=(0, 1, 3, 5), drains=(0, 5), extra={'MAXCONC': 1}, stolen=(0, 255, 0x55)) +
                sched(4, 1, 1, 1, nestmasks=(0, 1, 3), drains=(0, 3), extra={'MAXCONC': 2}, stolen=(0, 255))),
+  # ------------------------------------------------------------ every public overload against the engine it is documented to be
+] + [
+  dict(name=ovl_name(k), unit='ovl%02d' % k, harness='h_reduce.c', cbmc=RCBMC, defines={'OVERLOADS': None}, timeout=900, mem_gb=6,
+       scenarios=[{'NELEM': 6, 'GRAIN': 1, 'NEST': 1, 'NESTK': 1, 'NESTMASK': 1, 'NESTPOL': 1, 'DRAIN': 0, 'STOLEN': 255, 'MAXCONC': 2, 'CANCEL': 0}],
+       scenarios_thorough=[{'NELEM': n, 'GRAIN': g, 'NEST': 1, 'NESTK': 1, 'NESTMASK': nm, 'NESTPOL': pol, 'DRAIN': dr, 'STOLEN': 255, 'MAXCONC': mc, 'CANCEL': 0}
+                           for (n, g, nm, pol, dr, mc) in ((6, 1, 1, 1, 0, 2), (6, 1, 3, 0, 5, 2), (8, 2, 1, 1, 0, 3), (5, 1, 5, 1, 3, 1))],
+       desc=('public overload #%d of %s called as a user would (w_overloads.cpp) vs. the engine it is documented to be, called directly with the expected '
+             'partitioner kind, each under plain LIFO order and under an order with stolen right children (4 runs per query): same tree '
+             'fingerprint, result, leaves, spawn kinds, affinity-array use, tasks and bodies; tasks run in the user context iff the overload takes one; '
+             'deterministic overloads: fingerprint independent of the order and equal to the reference fingerprint of (range, grain)')
+            % (k, 'parallel_deterministic_reduce' if k <= 12 else 'parallel_reduce'),
+       bounds=dict(BAG_BOUNDS, overload=ovl_name(k)))
+  for k in range(1, 33)
+] + [
   # NOT part of the check (tier 'finding'): parallel_scan under cancellation does not free its sum_node / final_sum objects (real, see
   # NOTES.md and repro_scan_cancel_leak.cpp); clean-up under cancellation is outside C06's statement
   bag('scan_bag_cancel', 'scan_simple', 'parallel_scan cancelled at the k-th observation point: clean-up (known to fail, see NOTES.md)',
@@ -143,7 +166,8 @@ MANIFEST = dict(
              '64-bit size). Reduce / deterministic reduce / scan: the real task classes (start_reduce, reduction_tree_node, fold_tree, all four '
              'partitioners; start_deterministic_reduce; start_scan, finish_scan, sum_node, final_sum) run by a sequential task-bag model of the '
              'scheduler with a free-monoid body, so the result records the exact operand order; one query per concrete task order (owner-like / '
-             'thief-like takes, tasks running while another task is inside the user body, stolen flags, cancellation point) on ranges of <= 12 elements.',
+             'thief-like takes, tasks running while another task is inside the user body, stolen flags, cancellation point) on ranges of <= 12 elements. '
+             'Every public overload of parallel_deterministic_reduce (12) and parallel_reduce (20) is additionally run against the engine and partitioner it is documented to forward to (tree fingerprint, partitioner signature, context identity).',
   level_note='Task-order enumeration is explicit (listed per harness in evidence), not exhaustive; tasks are atomic apart from nested runs inside the '
              'user body; data races between truly overlapping tasks, sizes around the 500-element cut-offs, std::sort leaves and floating-point '
              'bit-identity on real data are outside. A real defect outside the statement was found on the way (parallel_scan leaks on cancellation, '
@@ -154,7 +178,7 @@ OUTSIDE = [
   'whole parallel_sort on arrays >= 500 elements (cut-offs grainsize/min_parallel_size): only the kernels are run, composition (recursion on the two subranges, std::sort on leaves) is a paper argument',
   'std::sort on leaf ranges (libstdc++)',
   'true overlap of two task bodies / of fold_tree with a running sibling (memory ordering of m_ref_count, has_right_zombie): tasks are atomic except for nested runs inside the user body',
-  'task orders not in the enumerated scenario lists; ranges > 12 elements; blocked_range2d/3d; lambda forms of parallel_reduce/scan (thin adaptors over the Body form)',
+  'task orders not in the enumerated scenario lists; ranges > 12 elements; blocked_range2d/3d; overloads of parallel_scan and parallel_sort other than the one each harness calls',
   'floating-point bit-identity of parallel_deterministic_reduce on real data (only: join tree and leaf ranges do not depend on the task order)',
   'exceptions thrown by bodies; clean-up of parallel_scan under cancellation (known leak, not part of the statement)',
   'affinity_partitioner replay across several calls (affinity array reuse)',
